@@ -1880,7 +1880,10 @@ psRes_t tls13ParseCertificateAuthorities(ssl_t *ssl,
         }
     }
 
-    /* Allocate space for the issuer names and their lengths.  */
+    /* Allocate space for the issuer names and their lengths (a repeated
+       extension replaces what an earlier one left).  */
+    psFree(keySelect->caNames, pool);
+    psFree(keySelect->caNameLens, pool);
     keySelect->nCas = nCas;
     keySelect->caNames = psCalloc(pool, nCas, sizeof(keySelect->caNames[0]));
     keySelect->caNameLens = psCalloc(pool, nCas, sizeof(keySelect->caNameLens[0]));
